@@ -395,3 +395,28 @@ func HostileActionList(t *rapid.T, root *JV) {
 	}
 	orb.Obj = append(orb.Obj, JKV{"pre_actions", list})
 }
+
+// TextMutation changes the memo as text, outside its JSON structure: trailing or leading bytes,
+// whitespace, a byte-order mark, comments, concatenated documents.
+func TextMutation(t *rapid.T, memo string) (string, string) {
+	kind := Pick(t, "txt/kind", []string{"trailing", "trailing", "trailing", "leading", "whitespace", "bom", "comment", "concat", "truncate"})
+	switch kind {
+	case "trailing":
+		return memo + Pick(t, "txt/trail", []string{"x", "{}", "}", "]", `{"orbiter":{}}`, `{"forward":{"receiver":"x"}}`, "[1,2,3]", "null", "0", `"s"`, "\n" + memo, ",", "\x00", "//c"}), kind
+	case "leading":
+		return Pick(t, "txt/lead", []string{"x", "{}", "[", "null", "\x00", "/*c*/"}) + memo, kind
+	case "whitespace":
+		return Pick(t, "txt/ws1", []string{" ", "\n", "\t", "\r\n", ""}) + memo + Pick(t, "txt/ws2", []string{" ", "\n", "\t\t", "\r\n"}), kind
+	case "bom":
+		return "\xef\xbb\xbf" + memo, kind
+	case "comment":
+		return strings.Replace(memo, "{", "{/*c*/", 1), kind
+	case "concat":
+		return memo + memo, kind
+	default:
+		if len(memo) < 2 {
+			return memo, kind
+		}
+		return memo[:1+uniform(t, "txt/cut", len(memo)-1)], kind
+	}
+}
